@@ -228,6 +228,12 @@ def check(run):
         text = crashgen.wrap_xml(crashgen.DECL[0] + '\n' + d)
         ssrc[cid] = ('parse_XML_buffer', text)
         j.case(cid, fork=True).model('xml', text).dump('errors').dump('inv').end()
+    # queries whose construction reports a diagnostic, or that are ill-typed: the property builders type-check them all the same
+    ps_model = crashgen.wrap_xml(BASE_DECL).replace('</template><system>', '</template><template><name>PS</name><parameter>const int[0,1] i, const int[0,2] j</parameter><location id="id9"><name>L</name></location><init ref="id9"/></template><system>').replace('system P;', 'system P, PS;')
+    for k, q in enumerate(crashgen.QUERY_SEM):
+        cid = 'qs%d' % k
+        ssrc[cid] = ('parseProperty (TigaPropertyBuilder)', q)
+        j.case(cid, fork=True).model('xml', ps_model).dump('errors').query(q, rt=False).end()
     # size and depth: every recursive structure of the language at 300 / 3000 elements under the sanitizers (their stack frames are several times larger)
     for kind in crashgen.SCALE_KINDS:
         for n in (300, 3000):
